@@ -181,6 +181,8 @@ type Sim struct {
 	Trace []string
 	// LastQueryOrder is the order in which the last scripted query visited its entities.
 	LastQueryOrder []ecs.Entity
+	// ReplayExtra is stored in the replay file next to the ops.
+	ReplayExtra any
 	// QueryHook, if set, is called with the open query a Q variant returned, before it is iterated.
 	QueryHook func(b *WB, q *ecs.Query) *Finding
 }
@@ -259,7 +261,7 @@ func (s *Sim) Report(f *Finding) {
 	if len(s.Ops) > 0 {
 		msg += " (after op " + fmt.Sprint(len(s.Ops)-1) + ": " + s.Ops[len(s.Ops)-1].Describe() + ")"
 	}
-	var extra any
+	extra := s.ReplayExtra
 	if len(s.SubSpecs) > 0 {
 		extra = s.SubSpecs
 	}
